@@ -698,7 +698,7 @@ func main() {
 	}
 	// generated programs and corpus: judged when both accept (RefParser covers a fragment)
 	for i, p := range progs {
-		if p.toks == nil || len(p.toks) > 400 {
+		if p.toks == nil || len(p.toks) > 20000 {
 			continue
 		}
 		if p.origin == "mutant" && i%4 != 0 {
